@@ -216,13 +216,13 @@ def run(ck):
     def stream():
         for i, (name, cfg, mode, args) in enumerate(corpus()):
             yield ('k%d' % i, cfg, mode, args, name, 'json')
-        yield from random_cases(ck, 2500 if quick else 20000)
+        yield from random_cases(ck, 2000 if quick else 20000)
         # exhaustive small scope (flagged): every digraph incl. self loops x kinds x edge kinds, node 0 requested
         yield from exhaustive_cases(ck, 1, False)
         yield from exhaustive_cases(ck, 2, False)
         yield from exhaustive_cases(ck, 2, True)
         if quick:
-            yield from sampled_graph_cases(ck, 3, 1500, False)
+            yield from sampled_graph_cases(ck, 3, 1000, False)
             yield from sampled_graph_cases(ck, 4, 500, True)
         else:
             yield from exhaustive_cases(ck, 3, False)
